@@ -60,6 +60,10 @@ def registry : List (String × (Text → Res (Text × J))) := [
   ("Field59NoOption", fun c => withTag "59" (F59.parse c) AcctLines.ser (AcctLines.json false)),
   ("Field59A", fun c => withTag "59A" (F59A.parse c) F59A.ser (fun v => .obj [("account", J.optStr v.account), ("bic", .str v.bic)])),
   ("Field51A", fun c => withTag "51A" (F51A.parse c) F51A.ser (OptA.json false false)),
+  ("Field52B", fun c => withTag "52B" (OptB.parse c) OptB.ser (OptB.json false false)),
+  ("Field54B", fun c => withTag "54B" (OptB.parse c) OptB.ser (OptB.json true false)),
+  ("Field55B", fun c => withTag "55B" (OptB.parse c) OptB.ser (OptB.json true false)),
+  ("Field57B", fun c => withTag "57B" (OptB.parse c) OptB.ser (OptB.json false false)),
   ("Field77T", fun c => withTag "77T" (F77T.parse c) id (fun v => .obj [("envelope_content", .str v)]))
 ]
 
@@ -84,7 +88,18 @@ def registryPartial : List (String × (Text → Option (Res (Text × J)))) :=
     let dec := match c.findIdx? (fun ch => ch == ',' || ch == '.') with | some p => c.length - p - 1 | none => 0
     if isAsciiT c && (dec > 2 || intD + 2 > 15) then none
     else some (withTag "19" (F19.parse c) F19.ser (fun d => .obj [("amount", J.dec d)]))
-  [("Field34F", f34), ("Field19", f19),
+  let f90 (tag : String) : Text → Option (Res (Text × J)) := fun c =>
+    let d := Nat.min (c.takeWhile Char.isDigit).length 5
+    if isAsciiT c && !amountExact (c.drop (d + 3)) ((c.drop d).take 3) then none
+    else some (withTag tag (F90.parse c) F90.ser F90.json)
+  -- 37H prints four decimals: comparable when at most four were written
+  let f37 : Text → Option (Res (Text × J)) := fun c =>
+    let a := match c with | _ :: 'N' :: r => r | _ :: r => r | [] => []
+    let dec := match a.findIdx? (fun ch => ch == ',' || ch == '.') with | some p => a.length - p - 1 | none => 0
+    if isAsciiT c && dec > 4 then none
+    else some (withTag "37H" (F37H.parse c) F37H.ser F37H.json)
+  [("Field37H", f37), ("Field36", fun c => some (withTag "36" (F36.parse c) plainDecimal (fun d => .obj [("rate", J.dec d)]))),
+   ("Field90C", f90 "90C"), ("Field90D", f90 "90D"), ("Field34F", f34), ("Field19", f19),
    ("Field60F", balance "60F"), ("Field60M", balance "60M"), ("Field62F", balance "62F"), ("Field62M", balance "62M"),
    ("Field64", balance "64"), ("Field65", balance "65"),
    ("Field32B", ccyAmt "32B" true), ("Field33B", ccyAmt "33B" true), ("Field71F", ccyAmt "71F" false), ("Field71G", ccyAmt "71G" false),
